@@ -95,8 +95,8 @@ class C12(Hist1Prop):
         return {"op": "merge", "h": tgt, "amount": 2, "inplace": True}
 
     def gen_nd(self, rng):
-        adaptive = rng.random() < 0.5
-        d = rng.choice([2, 2, 3])
+        adaptive = rng.random() < 0.4
+        d = rng.choice([2, 2, 2, 3])
         if adaptive:
             axes = [gen1.fixed_json(rng.choice([1.0, 0.5]), 0, 0, adaptive=True) for _ in range(d)]
             ops = [{"op": "empty", "out": 0, "axes": axes, "names": None},
@@ -108,7 +108,8 @@ class C12(Hist1Prop):
         if adaptive:
             ops.append({"op": "fill_n", "h": 1, "rows": [[rs(0.25)] * d], "ws": None})
         deriv = rng.choice(["copy", "copy0", "add", "mul", "div", "normalize", "merge", "projection", "select_int", "select_slice",
-                            "getitem", "T", "accumulate", "partial_normalize"])
+                            "getitem", "T", "accumulate", "partial_normalize", "T", "T", "projection", "select_int", "select_slice",
+                            "accumulate", "getitem"])
         dd = {"copy": {"op": "copy", "h": 0, "out": 2}, "copy0": {"op": "copy", "h": 0, "out": 2, "with_freq": False},
               "add": {"op": "add", "a": 0, "b": 1, "out": 2}, "mul": {"op": "mul", "h": 0, "c": "2", "k": "pyint", "out": 2},
               "div": {"op": "div", "h": 0, "c": "2", "k": "pyint", "out": 2},
@@ -123,9 +124,9 @@ class C12(Hist1Prop):
         if deriv in ("T", "partial_normalize") and d != 2:
             dd = {"op": "copy", "h": 0, "out": 2}
         ops.append(dd)
-        for _ in range(rng.randint(1, 4)):
-            tgt = rng.choice([0, 2, 2, 1])
-            kind = rng.choice(["fill", "fill_far", "fill_n", "imul", "idiv", "set_dtype", "iadd", "merge", "normalize"])
+        for step_no in range(rng.randint(1, 4)):
+            tgt = rng.choice([0, 2, 2, 1]) if step_no else rng.choice([0, 2])
+            kind = rng.choice(["fill", "fill_far", "fill_n", "imul", "idiv", "set_dtype", "iadd", "merge", "normalize"]) if step_no else "fill"
             if kind in ("fill", "fill_far", "fill_n"):
                 # the derived object may have fewer axes: use a marker resolved at run time
                 lo = 0.25 if kind != "fill_far" else rng.choice([6.5, -5.75])
@@ -157,7 +158,12 @@ class C12(Hist1Prop):
             if "_coord" in op:
                 h = s.get(op["h"]) if op["h"] < len(s.regs) else None
                 nd = h.ndim if h is not None else 1
-                if op["op"] == "fill":
+                if op["op"] == "fill" and op["_coord"] == "1/4" and h is not None:
+                    # a point inside the target's bins: the centre of the last bin of every axis
+                    import numpy as _np
+                    bl = [h.bins] if nd == 1 else h.bins
+                    op["v"] = [rs((float(_np.asarray(b)[-1][0]) + float(_np.asarray(b)[-1][1])) / 2) if len(b) else "1/4" for b in bl]
+                elif op["op"] == "fill":
                     op["v"] = [op["_coord"]] * nd
                 else:
                     op["rows"] = [[op["_coord"]] * nd, [rs(1.25)] * nd]
